@@ -98,6 +98,7 @@ type canary struct {
 // block/notification handling got stuck earlier in the run cannot do that.
 func (w *World) canaryPhase() {
 	w.healing = true
+	w.Sim.DisableCrashPoints() // (also when there was no heal phase before)
 	var cs []canary
 	k := 0
 	for _, n := range w.Nodes {
